@@ -6,6 +6,8 @@ package main
 // binary built with -race, which the orchestrator runs as a second step).
 
 import (
+	"strconv"
+	"sync/atomic"
 	"bytes"
 	cryptorand "crypto/rand"
 	"encoding/base64"
@@ -176,6 +178,7 @@ func (c *Ctx) genC20() {
 		rounds = 600
 	}
 	c.linearizability(rounds)
+	c.listSnapshots(5000)
 	// (4) free-running stress runs in a separate process (the -race build): an unguarded map access can abort the whole
 	// process with "concurrent map iteration and map write", which must not take the other results with it.
 }
@@ -485,6 +488,76 @@ func (c *Ctx) linearizability(rounds int) {
 	c.emitOneWay("linearizability", nil, fmt.Sprintf("checked %d", rounds), orc)
 }
 
+// listSnapshots: a List that overlaps a run of *ordered* mutations must still show a state the map was in at one instant.
+// One writer deletes keys k0000 < k0001 < … in key order (then a second store: inserts them in key order) while readers List
+// continuously: every linearizable result is a suffix set under the deletions (a prefix set under the insertions); a result
+// with a hole is a history no key-value map can explain — decided per result, no search needed.
+func (c *Ctx) listSnapshots(n int) {
+	key := func(i int) string { return fmt.Sprintf("/k/%05d", i) }
+	badDel, badIns, overlapped := 0, 0, 0
+	example := ""
+	for _, mode := range []string{"delete", "insert"} {
+		st := &samlidp.MemoryStore{}
+		if mode == "delete" {
+			for i := 0; i < n; i++ {
+				_ = st.Put(key(i), i)
+			}
+		}
+		var done int32
+		var wg sync.WaitGroup
+		wg.Add(1)
+		go func() {
+			defer wg.Done()
+			for i := 0; i < n; i++ {
+				if mode == "delete" {
+					_ = st.Delete(key(i))
+				} else {
+					_ = st.Put(key(i), i)
+				}
+			}
+			atomic.StoreInt32(&done, 1)
+		}()
+		for r := 0; r < 3; r++ {
+			wg.Add(1)
+			go func() {
+				defer wg.Done()
+				for atomic.LoadInt32(&done) == 0 {
+					l, _ := st.List("/k/")
+					if len(l) == 0 || len(l) == n {
+						continue
+					}
+					sort.Strings(l)
+					lo, _ := strconv.Atoi(l[0])
+					hi, _ := strconv.Atoi(l[len(l)-1])
+					ok := hi-lo+1 == len(l) && ((mode == "delete" && hi == n-1) || (mode == "insert" && lo == 0))
+					mu20.Lock()
+					overlapped++
+					if !ok {
+						if mode == "delete" {
+							badDel++
+						} else {
+							badIns++
+						}
+						if example == "" {
+							example = fmt.Sprintf("%s: %d keys listed, smallest %s, largest %s of %d", mode, len(l), l[0], l[len(l)-1], n)
+						}
+					}
+					mu20.Unlock()
+				}
+			}()
+		}
+		wg.Wait()
+	}
+	orc := ""
+	if badDel+badIns > 0 {
+		orc = fmt.Sprintf("key=store-list-not-a-snapshot %d List results concurrent with ordered deletions and %d concurrent with ordered insertions show a key set the store never held (%s)", badDel, badIns, example)
+	}
+	c.count("c20-list-snapshot-overlapping-lists", map[bool]string{true: "some", false: "none"}[overlapped > 0])
+	c.emitOneWay("listsnapshots", nil, fmt.Sprintf("checked %d", n), orc)
+}
+
+var mu20 sync.Mutex
+
 // ---- stress ----
 
 func (c *Ctx) stress(d time.Duration) {
@@ -547,5 +620,6 @@ func (c *Ctx) genC20stress() {
 	}
 	c.stress(d)
 	c.linearizability(20)
+	c.listSnapshots(20000)
 	fmt.Fprintln(os.Stderr, "stress finished")
 }
